@@ -8,4 +8,5 @@ Set Extraction KeepSingleton.
 Extraction "model.ml" extraction_prelude
   fmt_duration_with duration_sb spec_duration_string
   format_f64 format_bytes display_throughput fmt_scaled
-  throughput_sb bytes_sb f64_sb_approx scaled_sb_approx spec_scaled_string trunc_numeral printed_value.
+  throughput_sb bytes_sb f64_sb_approx scaled_sb_approx spec_scaled_string trunc_numeral printed_value
+  display_throughput_with throughput_with_sb.
